@@ -16,12 +16,12 @@ W(k) == CASE k = 1 -> << <<8>> >>
           [] k = 8 -> << <<8>>, <<0, -4, 0, 4, 0>> >>                     \* a three-point delta declared with zero outer taps: its span is five
           [] k = 9 -> << <<8>>, <<0, -8, 8>>, <<8, -16, 8>> >>             \* forward difference: a zero tap at one end only
 Mix(a, b, c, d) == (a * 7 + b * 13 + c * 5 + d * 3 + a * b)
-PrecTab == <<1, 2, 4, 8, 16>>                       \* variances 4, 2, 1, 1/2, 1/4
+PrecTab == <<1, 2, 4, 8, 16, 3, 6, 5, 12>>           \* variances 4, 2, 1, 1/2, 1/4 and 4/3, 2/3, 4/5, 1/3 (no binary float holds these)
 Inst(n, durs, voiced, wk, vlen, salt) ==
   LET nw == Len(W(wk)) IN
   [dur |-> durs, msd8 |-> [s \in 1..n |-> IF voiced[s] THEN 5 ELSE 3], thr8 |-> 4, wins |-> W(wk), vlen |-> vlen,
    mean8 |-> [s \in 1..n |-> [m \in 1..(vlen * nw) |-> IF m <= vlen THEN (Mix(s, m, salt, 1) % 41) - 20 ELSE (Mix(s, m, salt, 2) % 9) - 4]],
-   prec4 |-> [s \in 1..n |-> [m \in 1..(vlen * nw) |-> PrecTab[(Mix(s, m, salt, 3) % 5) + 1]]]]
+   prec4 |-> [s \in 1..n |-> [m \in 1..(vlen * nw) |-> PrecTab[(Mix(s, m, salt, 3) % 9) + 1]]]]
 Init == e = NoInst
 Next == /\ e = NoInst
         /\ \E n \in NStates : \E durs \in [1..n -> 1..MaxDur], voiced \in [1..n -> BOOLEAN] : \E wk \in WinSets, vl \in VLens, sa \in Salts :
